@@ -3,4 +3,6 @@ CONSTANTS
   Family = "expr"
   MaxDepth = 3
   FullOps = "all"
+  AllAtomsUpTo = 2
+  DefaultFrom = 3
 INVARIANTS SpineOK FullOK Emit
